@@ -111,6 +111,8 @@ def ov_json(v):
         return v
     if isinstance(v, Fraction):
         return float(v) if v.denominator != 1 else int(v)
+    if isinstance(v, tuple) and False:
+        return [ov_json(x) for x in v]
     if isinstance(v, E):
         return {"exc": v.code, "text": v.text}
     if isinstance(v, A):
@@ -447,7 +449,7 @@ def write_json(path, obj):
     os.makedirs(os.path.dirname(path), exist_ok=True)
     tmp = path + ".tmp"
     with open(tmp, "w") as fh:
-        json.dump(obj, fh, indent=1, default=ov_json)
+        json.dump(ov_json(obj), fh, indent=1, default=ov_json)
     os.replace(tmp, path)
 
 
